@@ -392,7 +392,8 @@ func (g *gen) genString(o opts) string {
 	case o.strType == "" && implicit:
 		alpha = []rune(printableChars + "*&")
 	default:
-		alpha = []rune(printableChars + "@&*_\x00\x7fäßλ→€𝄞\u0080￿")
+		// (ŁıĠ中ĪĦ: runes whose low byte is a printable character, a space, '*' or '&')
+		alpha = []rune(printableChars + "@&*_\x00\x7fäßλ→€𝄞\u0080￿ŁıĠ中ĪĦ")
 	}
 	n := rapid.IntRange(0, 12).Draw(g.t, "slen")
 	if g.rare("longstr", 25) {
